@@ -141,11 +141,11 @@ Theorem C09_diff_matching_exact : forall key nm1 nm2 c1 c2,
 Proof. exact DiffP.matching_exact. Qed.
 Print Assumptions C09_diff_matching_exact.
 
-(* (4) whole files, any option set: for link-free forests of well-formed nodes (upper-case type names) whose sibling
+(* (4) whole files, any option set without an active tolerance (no -t, or a tolerance that is not > 0; for -t see (6)): for link-free forests of well-formed nodes (upper-case type names) whose sibling
    KEYS are distinct and whose names are not empty, of ANY depth: the output is empty IFF the two forests are equal up
    to the order of children, up to the normalisation of names, and (without -d) up to the data. *)
 Theorem C09_diff_silent_iff_equal_unordered : forall o w1 w2 fuel f1 f2 r1 r2,
-  d_recurse o = true ->
+  d_recurse o = true -> tol_active (d_tol o) = false ->
   get_file w1 f1 = Some r1 -> get_file w2 f2 = Some r2 ->
   link_free r1 = true -> link_free r2 = true ->
   keys_unique (find_key o) r1 = true -> keys_unique (find_key o) r2 = true ->
@@ -160,7 +160,7 @@ Print Assumptions C09_diff_silent_iff_equal_unordered.
 
 (* nothing is reported for identical forests (a file and its copy, its ADF <-> HDF5 conversion) ... *)
 Theorem C09_diff_cross_format_silent : forall o w1 w2 fuel f1 f2 r1 r2,
-  d_recurse o = true -> get_file w1 f1 = Some r1 -> get_file w2 f2 = Some r2 -> kids_of r2 = kids_of r1 ->
+  d_recurse o = true -> tol_active (d_tol o) = false -> get_file w1 f1 = Some r1 -> get_file w2 f2 = Some r2 -> kids_of r2 = kids_of r1 ->
   link_free r1 = true -> link_free r2 = true -> keys_unique (find_key o) r1 = true -> names_nonempty r1 = true ->
   kids_ok Old false r1 = true -> (depth r1 <= fuel)%nat ->
   cgnsdiff Cur MCur o w1 w2 fuel f1 f2 = [].
@@ -169,7 +169,7 @@ Print Assumptions C09_diff_cross_format_silent.
 
 (* ... and every difference (so every one-edit difference of a copy) is reported *)
 Theorem C09_diff_reports_every_difference : forall o w1 w2 fuel f1 f2 r1 r2,
-  d_recurse o = true ->
+  d_recurse o = true -> tol_active (d_tol o) = false ->
   get_file w1 f1 = Some r1 -> get_file w2 f2 = Some r2 ->
   link_free r1 = true -> link_free r2 = true ->
   keys_unique (find_key o) r1 = true -> keys_unique (find_key o) r2 = true ->
@@ -204,9 +204,54 @@ Theorem C09_diff_loop_stays_in_bounds : forall chk key rec c2 nm1 nm2 l1 n2,
 Proof. exact DiffP.diff_loop_cur_in_bounds. Qed.
 Print Assumptions C09_diff_loop_stays_in_bounds.
 
+(* (6) -t<tol> as compare_data implements it: with tol > 0.0, R4 and X4 data are compared as floats (so the two components
+   of a complex value are two values), R8 and X8 as doubles, each pair by fabs (a - b) > tol in IEEE arithmetic; every
+   other type, and every tolerance that is not > 0, by bytes.  [values n da] are the n-byte values the C code indexes. *)
+Theorem C09_diff_tolerance_silent_iff : forall tol n1 n2 a1 l1 t1 d1 da1 k1 a2 l2 t2 d2 da2 k2,
+  node_ok Old false t1 d1 da1 = true -> node_ok Old false t2 d2 da2 = true ->
+  (compare_data true tol n1 n2 (Node a1 l1 t1 d1 da1 k1) (Node a2 l2 t2 d2 da2 k2) = [] <->
+   l1 = l2 /\ t1 = t2 /\ d1 = d2 /\ DiffP.data_within tol t1 da1 da2).
+Proof. exact DiffP.compare_data_tol_iff. Qed.
+Print Assumptions C09_diff_tolerance_silent_iff.
+(* ONE value -- one component of one element -- beyond the tolerance is reported, for every numeric type *)
+Theorem C09_diff_one_value_beyond_tolerance_reported : forall tol n1 n2 a1 a2 l t d da1 da2 k1 k2 x y,
+  node_ok Old false t d da1 = true -> node_ok Old false t d da2 = true ->
+  tol_active tol = true ->
+  (diff_num_size t = 4 /\ In (x, y) (combine (values 4 da1) (values 4 da2)) /\ exceeds_tol32 x y tol = true \/
+   diff_num_size t = 8 /\ In (x, y) (combine (values 8 da1) (values 8 da2)) /\ exceeds_tol64 x y tol = true) ->
+  compare_data true tol n1 n2 (Node a1 l t d da1 k1) (Node a2 l t d da2 k2) = [DData n1 n2].
+Proof. exact DiffP.one_value_beyond_tolerance_reported. Qed.
+Print Assumptions C09_diff_one_value_beyond_tolerance_reported.
+Theorem C09_diff_values_compared_one_by_one : forall n a rest,
+  (0 < n)%nat -> length a = n -> values n (a ++ rest) = le_val a :: values n rest.
+Proof. exact DiffP.values_cons. Qed.
+Print Assumptions C09_diff_values_compared_one_by_one.
+Theorem C09_diff_compare_floats_spec : forall tol l1 l2,
+  compare_floats tol l1 l2 = true <-> exists x y, In (x, y) (combine l1 l2) /\ exceeds_tol32 x y tol = true.
+Proof. exact DiffP.compare_floats_true_iff. Qed.
+Print Assumptions C09_diff_compare_floats_spec.
+Theorem C09_diff_compare_doubles_spec : forall tol l1 l2,
+  compare_doubles tol l1 l2 = true <-> exists x y, In (x, y) (combine l1 l2) /\ exceeds_tol64 x y tol = true.
+Proof. exact DiffP.compare_doubles_true_iff. Qed.
+Print Assumptions C09_diff_compare_doubles_spec.
+(* -t means nothing for integers and characters *)
+Theorem C09_diff_tolerance_ignored_for_non_numeric : forall dd tol n1 n2 a1 l1 t1 d1 da1 k1 y,
+  diff_num_size t1 = 0 ->
+  compare_data dd tol n1 n2 (Node a1 l1 t1 d1 da1 k1) y = compare_data dd 0 n1 n2 (Node a1 l1 t1 d1 da1 k1) y.
+Proof. exact DiffP.tol_ignored_for_non_numeric. Qed.
+Print Assumptions C09_diff_tolerance_ignored_for_non_numeric.
+(* what comparing complex floats as doubles would lose: (1.0f, 1e-30f) against (1.5f, 1e-30f) at tolerance 0.1 *)
+Theorem C09_diff_x4_as_doubles_refuted :
+  let da1 := [0;0;128;63; 96;66;162;13; 0;0;64;64; 0;0;128;192] in
+  let da2 := [0;0;192;63; 96;66;162;13; 0;0;64;64; 0;0;128;192] in
+  compare_floats 0x3FB999999999999A (values 4 da1) (values 4 da2) = true /\
+  compare_doubles 0x3FB999999999999A (values 8 da1) (values 8 da2) = false.
+Proof. exact DiffP.x4_as_doubles_misses_real_part. Qed.
+Print Assumptions C09_diff_x4_as_doubles_refuted.
+
 (* the same at any pair of nodes other than the two roots (dataset arguments with -r) *)
 Theorem C09_diff_sound_complete : forall o w1 w2 fuel name1 cf1 t1 name2 cf2 t2,
-  d_recurse o = true ->
+  d_recurse o = true -> tol_active (d_tol o) = false ->
   bytes_eqb name1 [47] && bytes_eqb name2 [47] = false ->
   link_free t1 = true -> link_free t2 = true ->
   keys_unique (find_key o) t1 = true -> keys_unique (find_key o) t2 = true ->
@@ -223,7 +268,7 @@ Theorem C09_diff_without_recurse : forall o w1 w2 f name1 cf1 a1 l1 t1 d1 da1 ks
   d_recurse o = false ->
   compare_nodes Cur MCur o w1 w2 (S f) name1 cf1 (Node a1 l1 t1 d1 da1 ks1) name2 cf2 (Node a2 l2 t2 d2 da2 ks2) =
   if bytes_eqb name1 [47] && bytes_eqb name2 [47] then []
-  else compare_data (d_data o) name1 name2 (Node a1 l1 t1 d1 da1 ks1) (Node a2 l2 t2 d2 da2 ks2).
+  else compare_data (d_data o) (d_tol o) name1 name2 (Node a1 l1 t1 d1 da1 ks1) (Node a2 l2 t2 d2 da2 ks2).
 Proof. exact DiffP.no_recurse_only_data. Qed.
 Print Assumptions C09_diff_without_recurse.
 
@@ -258,13 +303,15 @@ Theorem C09_diff_link_target_blind_refuted :
 Proof. exact diff_link_target_blind. Qed.
 Print Assumptions C09_diff_link_target_blind_refuted.
 
-(* outside the default options: with -t<tol> the comparison is fabs(a-b) > tol, false for a NaN -- 2.0 against NaN is
-   silent (with the default tolerance 0 bytes are compared and the same pair IS reported).  Flocq's binary64. *)
+(* a documented limit of -t: the comparison is fabs(a-b) > tol, false for a NaN -- 2.0 against NaN is silent under -t1e-6
+   (with the default tolerance 0 bytes are compared and the same pair IS reported).  Flocq's binary64. *)
 Theorem C09_diff_tol_nan_refuted :
-  exists d1 d2 tol, d1 <> d2 /\ Binary.is_nan 53 1024 (b64_of_bits d2) = true /\
+  exists d1 d2 tol, d1 <> d2 /\ Binary.is_nan 53 1024 (b64_of_bits d2) = true /\ tol_active tol = true /\
                     compare_doubles tol [d1] [d2] = false /\
-                    compare_data true [47;97] [47;97] (Node [97] [] [82;56] [1] [0;0;0;0;0;0;0;64] [])
-                                                      (Node [97] [] [82;56] [1] [0;0;0;0;0;0;248;127] []) = [DData [47;97] [47;97]].
+                    compare_data true tol [47;97] [47;97] (Node [97] [] [82;56] [1] [0;0;0;0;0;0;0;64] [])
+                                                          (Node [97] [] [82;56] [1] [0;0;0;0;0;0;248;127] []) = [] /\
+                    compare_data true 0 [47;97] [47;97] (Node [97] [] [82;56] [1] [0;0;0;0;0;0;0;64] [])
+                                                        (Node [97] [] [82;56] [1] [0;0;0;0;0;0;248;127] []) = [DData [47;97] [47;97]].
 Proof. exact diff_tol_nan_blind. Qed.
 Print Assumptions C09_diff_tol_nan_refuted.
 
